@@ -225,6 +225,10 @@ class Paraxial:
         _, ua = self.marginal_ray()
         n = self.optic.n()
         mag = n[0]*ua[0]/(n[-1]*ua[-1])
+        # each reflection reverses the sign of the index that follows it
+        num_mirrors = sum(surf.is_reflective for surf in self.surfaces.surfaces)
+        if num_mirrors % 2:
+            mag = -mag
         return mag[0]
 
     def invariant(self):
